@@ -343,6 +343,10 @@ var c10KernelPatterns = []string{
 	// a repeated variable under further constructors, next to array patterns that spell or bind the length
 	"[]func($t) $t", "*struct{$t; $t}", "func($_, $t, $_, $t)", "map[*$t]*$t", "func([0]$t, [8]$t)", "func([$n]$t, [$n]$t)", "map[[$n]$t][$m]$t",
 	"[0]$x", "[0][$n]$x", "[$n][0]$x", "*[0]$x", "[][0]$x", "func($t, $*_) $t", "struct{$t; $*_; $t}",
+	// the split of a `$*_` run in a RESULT list (of a nested function type) has to be revised because of what follows the function type
+	"func(func() ($*_, $t, $*_), $t)", "func(func() ($*_, [$n]byte, $*_)) [$n]int", "map[*func() ($*_, $t, $*_)]$t", "func(func($*_, $t, $*_), $t)",
+	"func(func() ($*_, $t), $t)", "func() (func() ($*_, $t, $*_), $t)", "struct{func() ($*_, $t, $*_); $t}", "[]func(func() ($*_, $t, $*_)) $t",
+	"func(int) $*_", "func() ($*_, error)", "func($*_, func() $*_, $*_)", "func(func() ($*_, $k, $*_), func() ($*_, $k, $*_))",
 }
 
 // strings for the parse-only stream: valid and invalid spellings
@@ -549,6 +553,20 @@ func runC10(c *Ctx) error {
 				fn([]types.Type{tBool, tInt, tStr}, []types.Type{tStr}),
 				st(tBool, tInt, tStr, fn([]types.Type{tStr}, nil)),
 				types.NewMap(tStr, fn([]types.Type{tBool, tInt, tStr}, nil)),
+				// nested function types whose result lists need the second split
+				fn([]types.Type{fn(nil, []types.Type{tInt, tStr}), tStr}, nil),
+				fn([]types.Type{fn(nil, []types.Type{tInt, tStr}), tInt}, nil),
+				fn([]types.Type{fn(nil, []types.Type{tInt, tStr}), tBool}, nil),
+				fn([]types.Type{fn(nil, []types.Type{types.NewArray(types.Typ[types.Byte], 4), types.NewArray(types.Typ[types.Byte], 8)})}, []types.Type{types.NewArray(tInt, 8)}),
+				types.NewMap(types.NewPointer(fn(nil, []types.Type{tInt, tStr, tBool})), tStr),
+				fn(nil, []types.Type{fn(nil, []types.Type{tBool, tInt, tStr}), tInt}),
+				st(fn(nil, []types.Type{tInt, tStr}), tStr),
+				types.NewSlice(fn([]types.Type{fn(nil, []types.Type{tInt, tStr, tBool})}, []types.Type{tBool})),
+				fn([]types.Type{tInt}, nil),
+				fn([]types.Type{tInt}, []types.Type{tStr, types.Universe.Lookup("error").Type()}),
+				fn(nil, []types.Type{tInt, tStr, types.Universe.Lookup("error").Type()}),
+				fn([]types.Type{tInt, fn(nil, []types.Type{tInt, tStr}), tStr}, nil),
+				fn([]types.Type{fn(nil, []types.Type{tInt, tStr}), fn(nil, []types.Type{tStr, tBool})}, nil),
 			} {
 				sx, err := enc.Enc(t)
 				if err != nil {
